@@ -34,6 +34,16 @@ ALL_OPS = [
 ITER_OPS = [o for o in ALL_OPS if o.startswith('Iter')]
 
 
+def KEYQ():
+    """Key qualifier with the flavors of its declaration spelled out: an
+    unspecified flavor (None) means 'true/false by DTD default' on the wire but
+    'take it from the declaration' for a server working on objects, which is
+    a difference of representation, not of pywbem's behaviour."""
+    return pywbem.CIMQualifier('Key', True, overridable=False,
+                               tosubclass=True, toinstance=False,
+                               translatable=False)
+
+
 def public_operations():
     """The operation methods found by reflection (names starting with an
     upper-case letter); used to prove the catalogue is complete."""
@@ -194,8 +204,7 @@ class RepoMaterial:
     def new_class(self):
         rng = self.rng
         name = rng.choice(['VF_New%d' % rng.randint(0, 5), 'VF_Base'])
-        props = [CIMProperty('K', None, type='string', qualifiers=[
-            pywbem.CIMQualifier('Key', True)])]
+        props = [CIMProperty('K', None, type='string', qualifiers=[KEYQ()])]
         for t in rng.sample(cimgen.SIMPLE_TYPES, 3):
             props.append(CIMProperty('N_' + t, cimgen.value(rng, t, False),
                                      type=t))
@@ -205,10 +214,8 @@ class RepoMaterial:
 
     def modified_class(self):
         rng = self.rng
-        props = [CIMProperty('N', None, type='uint32', qualifiers=[
-            pywbem.CIMQualifier('Key', True)]),
-            CIMProperty('S', None, type='string', qualifiers=[
-                pywbem.CIMQualifier('Key', True)]),
+        props = [CIMProperty('N', None, type='uint32', qualifiers=[KEYQ()]),
+            CIMProperty('S', None, type='string', qualifiers=[KEYQ()]),
             CIMProperty('Note', cimgen.string(rng), type='string'),
             CIMProperty('Added', None, type=rng.choice(cimgen.SIMPLE_TYPES))]
         return CIMClass(rng.choice(['VF_Other', 'VF_Other', 'VF_NoSuch']),
